@@ -240,7 +240,10 @@ def main():
             total += 1
             m = mo[i] if mo else None
             if m is not None and not c.meta.get("nocompare"):
-                d = s.compare(c, h, m)
+                try:
+                    d = s.compare(c, h, m)
+                except Exception as ex:      # the implementation's output could not even be parsed: that is a disagreement, not a tool failure
+                    d = "implementation output not understood (%s: %s): %s" % (type(ex).__name__, ex, str(h)[:120])
                 if d:
                     nd += 1
                     if len(disagreements) < 50:
@@ -248,7 +251,10 @@ def main():
                             st = max(g for g in gs if g <= i)
                             c.meta["history"] = lines[st:i + 1]
                         disagreements.append((s, c, h, m, d))
-            o = s.oracle(c, h)
+            try:
+                o = s.oracle(c, h)
+            except Exception as ex:
+                o = ("oracle:output-not-understood:" + s.name, "the oracle could not interpret the implementation's output (%s: %s) for '%s': %s" % (type(ex).__name__, ex, c.line[:80], str(h)[:160]))
             if o:
                 nf += 1
                 sig, desc = o
@@ -264,11 +270,18 @@ def main():
                         rep_lines = shrink_case(s, c, exe, sig) or c.line
                     violations.append((sig, desc, {"suite": s.name, "cfg": s.cfg, "line": rep_lines, "original_line": c.line if rep_lines != c.line else None,
                                                    "implementation": h, "model": m, "what": desc}))
-            ft = s.feature(c, h)
+            try:
+                ft = s.feature(c, h)
+            except Exception:
+                ft = None
             if ft is not None:
                 features.add((s.name, ft))
         if hasattr(s, "post"):
-            for sig, desc, c in s.post(cases, ho):
+            try:
+                posted = list(s.post(cases, ho))
+            except Exception as ex:
+                posted = [("oracle:output-not-understood:" + s.name, "the suite-level oracle could not interpret the implementation's outputs (%s: %s)" % (type(ex).__name__, ex), cases[0])] if cases else []
+            for sig, desc, c in posted:
                 nf += 1
                 k = match_known(known, prop, sig)
                 if k:
